@@ -3158,6 +3158,8 @@ no_more_buffers:
         movdqa  [rsp + _STATE + 16*i], xmm0
 %assign i (i + 1)
 %endrep
+        movdqa  [rsp + _XMM_SAVE], xmm0
+        movdqa  [rsp + _XMM_SAVE + 16], xmm0
 %endif
 
 %ifndef LINUX
